@@ -137,6 +137,8 @@ def build_pupil_wavefront(case):
 def dft(case, ctx):
     shape = tuple(case["shape"])
     wl, os_ = case["wavelength"], case["oversample"]
+    os_arg = gen.typed_int(os_, int(np.sum(case["shape"])) + len(case["planes"]) + os_)      # numpy integer scalar forms
+    ctx.tag("os_type:" + type(os_arg).__name__)
     if single_sample_intermediate(case):
         raise Skip("single_sample_intermediate_field")
     with lentil_call("C02.build", "Pupil multiply"):
@@ -162,7 +164,7 @@ def dft(case, ctx):
     if case["mask"] is not None:
         kw["mask"] = case["mask"].copy()
     with lentil_call("C02.dft", "propagate_dft"):
-        out = lentil.propagate_dft(w, pixelscale=cm.as_ps(case["du"]), oversample=os_, **kw)
+        out = lentil.propagate_dft(w, pixelscale=cm.as_ps(case["du"]), oversample=os_arg, **kw)
         got = out.field
         inten = out.intensity
     ref, tol, a = pm.fraunhofer(model, dxp, dup, wl, z, os_, full)
